@@ -4,7 +4,8 @@ EXTENDS Lifecycle, Sequences, Json, IOUtils, TLC
 
 Rec == ndJsonDeserialize(IOEnv.TRACE)
 
-VARIABLES i, n, timeout, att, now, cto
+VARIABLES i, n, timeout, att, now, cto,
+          selSince   \* a scheduling decision (client packet in an established session) has run since the timeout was last configured
 
 N(r) == Len(r.links)
 ConnOf(r) == [l \in Links |-> IF l <= N(r) THEN r.links[l].conn ELSE FALSE]
@@ -23,7 +24,7 @@ CleanRejoin(r) == LET k == r.links[r.l] IN
 CtoOf(r) == [l \in Links |-> IF l <= N(r) THEN r.links[l].cto ELSE 5000]
 
 TraceInit == Init /\ i = 1 /\ n = 1 /\ timeout = 5000 /\ att = [l \in Links |-> -1] /\ now = 0
-             /\ cto = [l \in Links |-> 5000]
+             /\ cto = [l \in Links |-> 5000] /\ selSince = FALSE
 
 Step(r) ==
     IF r.ev = "Init" THEN
@@ -31,7 +32,7 @@ Step(r) ==
         /\ everUp' = [l \in Links |-> FALSE] /\ lastTry' = [l \in Links |-> -1]
         /\ conn' = [l \in Links |-> FALSE] /\ tornSince' = [l \in Links |-> FALSE] /\ upSince' = [l \in Links |-> IF l <= r.n THEN 0 ELSE -1]
         /\ quietSince' = 0 /\ connAt' = TRUE /\ act' = "Init"
-    ELSE IF r.ev = "Housekeeping" THEN Pass(r.t, timeout, cto, Torn(r), ConnOf(r))
+    ELSE IF r.ev = "Housekeeping" THEN Pass(r.t, timeout, cto, Torn(r), ConnOf(r), ~selSince)
     ELSE IF r.ev = "UplinkPkt" THEN Arrive(r.l, r.t, r.cls, r.len, ConnOf(r), CleanRejoin(r), r.stray)
     ELSE IF r.ev \in {"ClientPkt", "FlushTick"} /\ \E l \in 1..N(r) : r.marked[l]
          THEN /\ \A l \in 1..N(r) : r.marked[l] => r.sendfail[l]        \* only a link whose send just failed
@@ -48,12 +49,14 @@ TraceNext ==
        /\ timeout' = IF r.ev \in {"Init", "SetCfg"} THEN r.timeout ELSE timeout
        /\ att' = AttOf(r)
        /\ cto' = CtoOf(r)
+       /\ selSince' = IF r.ev = "Init" \/ (r.ev = "SetCfg" /\ r.timeout # timeout) THEN FALSE
+                      ELSE IF r.ev = "ClientPkt" /\ r.regdone THEN TRUE ELSE selSince
        /\ now' = r.t
        /\ Step(r)
        \* no other step tears a link down or connects one
        /\ (r.ev \notin {"Housekeeping", "Init"} => Torn(r) = {})
 
-TraceSpec == TraceInit /\ [][TraceNext]_<<vars, i, n, timeout, att, now, cto>>
+TraceSpec == TraceInit /\ [][TraceNext]_<<vars, i, n, timeout, att, now, cto, selSince>>
 
 RejoinsInTime == Rejoins(now, timeout)
 
